@@ -18,6 +18,7 @@ func init() {
 	register(&Property{
 		ID: "C02",
 		Explanation: "Decides the control-flow shape of the security interpreter for ALL requirement structures and outcome vectors (the code is a fixed interpreter over them): " +
+			"Round 12: once BasicAuth() reported credentials the application's callback is asked on every path (no answer in its place). " +
 			"R02.1 an operation with security requirements is registered wrapped by newSecureAPI, and the operation handler runs only when binding reported no error; " +
 			"R02.2 in the secure wrapper the next handler is reached only when no authentication is needed or after Context.Authorize returned a nil error, with the request Authorize returned, and the wrapper cannot reach binding code except through next; " +
 			"R02.3 (AND) after consulting a scheme, a satisfied return is reached only through applies==true and err==nil of that scheme, a not-applicable scheme makes the group not applicable, the error returned is the scheme's, the principal is a scheme's, the admitting group is recorded, and every scheme of the group consults an authenticator (KNOWN FINDING on today's tree: unregistered schemes are skipped); " +
